@@ -58,6 +58,9 @@ ALPHABET = [
     'u::[[1 2] [3 4 5]]', 'b::u:-9,[0 1]',
     # a shape list with the placeholder -1 (Reshape works the placeholder out in a copy of the shape, not in the operand)
     's::[-1 2]', 'c::s:^[1 2 3 4 5 6]',
+    # a dictionary literal nested in a dictionary literal, and an update of the inner dictionary found under its key: evaluating
+    # the literal's text again (a parse-cache hit) must yield the dictionary that was written, not the one that was updated
+    'p:::{[1 :{[2 3]}]}', '(p?1),[4 5]',
 ]
 
 # depth-4 alphabet of the thorough tier when the full one does not fit (see run()): one representative per mechanism
@@ -70,7 +73,8 @@ REDUCED = [
 FULL_DEPTH_4 = False        # thorough tier: full alphabet at length 4 (False: REDUCED at length 4, full up to 3)
 
 ASSIGN = re.compile(r'^([a-z]+)::')
-DICT_INPLACE = {'e,[3 4]': 'e', 'd,[5 6]': 'd'}           # statement -> variable whose dictionary is updated in situ (documented)
+DICT_INPLACE = {'e,[3 4]': 'e', 'd,[5 6]': 'd',           # statement -> variable whose dictionary is updated in situ (documented)
+                '(p?1),[4 5]': ('p', 1)}                  # ... or (variable, key): the dictionary found under that key of it
 CASE_CPU_S = 10
 
 SAMPLES = [
@@ -279,15 +283,19 @@ def check_last(hist, text):
     # cells exempt from the frame condition: bound to the dictionary a documented in-place operation updates
     exempt = set()
     if text in DICT_INPLACE:
-        name = DICT_INPLACE[text]
+        name, inner_key = DICT_INPLACE[text], None
+        if isinstance(name, tuple):
+            name, inner_key = name
         try:
             tgt = a.kl._context[KGSym(name if premod is None else '%s`%s' % (name, premod))]
         except KeyError:
             tgt = None
+        if isinstance(tgt, dict) and inner_key is not None:
+            tgt = tgt.get(inner_key)
         if isinstance(tgt, dict):
             for i, fr in enumerate(reversed(a.frames())):
                 for k, v in fr.items():
-                    if v is tgt:
+                    if v is tgt or (isinstance(v, dict) and any(w is tgt for w in v.values())):
                         exempt.add((i, str.__str__(k)))
     m = ASSIGN.match(text)
     assigned = None
